@@ -491,8 +491,28 @@ func (b *backend) extractHandler(p *Program, h *handler) {
 		h.Execs = append(h.Execs, es)
 		return true
 	})
-	// scans: calls of (*sql.Row).Scan / (*sql.Rows).Scan; attach to the preceding query site
-	ast.Inspect(h.Decl.Body, func(n ast.Node) bool {
+	// scans: calls of (*sql.Row).Scan / (*sql.Rows).Scan; attach to the preceding query site. The
+	// scan loop may live in a helper of the package that is handed the rows.
+	scanBodies := []ast.Node{h.Decl.Body}
+	for _, call := range callsIn(h.Decl.Body) {
+		fn, ok := calleeOf(info, call).(*types.Func)
+		if !ok || fn.Pkg() != b.Pkg.Types {
+			continue
+		}
+		takesRows := false
+		for _, a := range call.Args {
+			if tv, ok := info.Types[a]; ok && (isNamed(tv.Type, "database/sql", "Rows") || isNamed(tv.Type, "database/sql", "Row")) {
+				takesRows = true
+			}
+		}
+		if takesRows {
+			if hd := funcDeclOf(b.Pkg, fn); hd != nil && hd.Body != nil {
+				scanBodies = append(scanBodies, hd.Body)
+			}
+		}
+	}
+	for _, scanBody := range scanBodies {
+	ast.Inspect(scanBody, func(n ast.Node) bool {
 		call, ok := n.(*ast.CallExpr)
 		if !ok {
 			return true
@@ -531,6 +551,7 @@ func (b *backend) extractHandler(p *Program, h *handler) {
 		}
 		return true
 	})
+	}
 	sort.SliceStable(h.Execs, func(i, j int) bool { return h.Execs[i].Site.Pos < h.Execs[j].Site.Pos })
 }
 
@@ -808,14 +829,28 @@ func (env *localEnv) helperResult(id *ast.Ident) (*localEnv, ast.Expr, bool) {
 			k = i
 		}
 	}
-	// exactly one return, the last statement
+	// exactly one value-carrying return, the last statement; other returns must be error exits
+	// (a non-nil value in an error-typed result position)
 	nret := 0
+	fsig := fn.Type().(*types.Signature)
 	ast.Inspect(fd.Body, func(n ast.Node) bool {
 		if _, ok := n.(*ast.FuncLit); ok {
 			return false
 		}
-		if _, ok := n.(*ast.ReturnStmt); ok {
-			nret++
+		if rs, ok := n.(*ast.ReturnStmt); ok {
+			errExit := false
+			if len(rs.Results) == fsig.Results().Len() {
+				for j, r := range rs.Results {
+					if isErrorType(fsig.Results().At(j).Type()) {
+						if id, isId := ast.Unparen(r).(*ast.Ident); !isId || id.Name != "nil" {
+							errExit = true
+						}
+					}
+				}
+			}
+			if !errExit || ast.Node(rs) == ast.Node(fd.Body.List[len(fd.Body.List)-1]) {
+				nret++
+			}
 		}
 		return true
 	})
